@@ -552,7 +552,8 @@ fn mode_run(inp: &str, out: &str) {
 // ---------------------------------------------------------------------------------------------
 // mode: table  (complete behaviour tree of a scope)
 
-fn table_cfg<T: FloatT>(ci: usize, cfg: &Value, alpha: &[i64], unit: i64, maxlen: usize, extras: bool, taps: bool, w: &mut impl Write) {
+#[allow(clippy::too_many_arguments)]
+fn table_cfg<T: FloatT>(ci: usize, cfg: &Value, alpha: &[i64], unit: i64, maxlen: usize, extras: bool, taps: bool, prefix: &[i64], w: &mut impl Write) {
     let a = alpha.len();
     // level l has a^l entries
     let mut obs: Vec<Vec<Value>> = (0..=maxlen).map(|l| vec![Value::Null; a.pow(l as u32)]).collect();
@@ -584,6 +585,10 @@ fn table_cfg<T: FloatT>(ci: usize, cfg: &Value, alpha: &[i64], unit: i64, maxlen
                 break;
             }
         };
+        // an optional common prefix is fed before the tree starts (C03: what preceded must not matter)
+        for &x in prefix {
+            g_update(&mut slot, T::from_ratio(x, unit));
+        }
         let mut idx = 0usize;
         if first_new == 0 {
             obs[0][0] = g_last(&mut slot);
@@ -637,14 +642,19 @@ fn mode_table(inp: &str, out: &str) {
     let extras = scope.get("extras").and_then(|b| b.as_bool()).unwrap_or(false);
     let taps = scope.get("taps").and_then(|b| b.as_bool()).unwrap_or(false);
     let f32_ = scope.get("float").and_then(|f| f.as_str()) == Some("f32");
+    let prefix: Vec<i64> = scope
+        .get("prefix")
+        .and_then(|p| p.as_array())
+        .map(|a| a.iter().map(|x| x.as_i64().unwrap()).collect())
+        .unwrap_or_default();
     for (ci, cfg) in scope["cfgs"].as_array().unwrap().iter().enumerate() {
         // a per-configuration maxlen may override the scope's
         let ml = cfg.get("maxlen").and_then(|m| m.as_u64()).map(|m| m as usize).unwrap_or(maxlen);
         let _ = ml;
         if f32_ {
-            table_cfg::<f32>(ci, cfg, &alpha, unit, maxlen, extras, taps, &mut w);
+            table_cfg::<f32>(ci, cfg, &alpha, unit, maxlen, extras, taps, &prefix, &mut w);
         } else {
-            table_cfg::<f64>(ci, cfg, &alpha, unit, maxlen, extras, taps, &mut w);
+            table_cfg::<f64>(ci, cfg, &alpha, unit, maxlen, extras, taps, &prefix, &mut w);
         }
     }
 }
